@@ -72,3 +72,31 @@ Proof.
   intros c t' Hin. destruct (tables_ok_bundled_have_level _ _ _ _ tables_ok_bundle (Hsub _ _ Hin)) as [pl [Hpl _]].
   rewrite Hpl. discriminate.
 Qed.
+
+(* the same list read through the aggregate_report entry point: a rule is listed iff its
+   aggregate_report may run for some supplied aggregates *)
+Lemma bundle_enabled_aggregate_list_fires user custom p bundled_agg custom_agg t :
+  user_wf user = true ->
+  (forall c t', In (c, t') bundled_agg -> In (c, t') bundled_rules) ->
+  let merged := linter_config provided_rules user custom in
+  In t (determine_enabled_aggregate_rules p merged bundled_agg custom_agg) <->
+  (exists c, In (c, t) bundled_agg /\
+             exists supplied, branch_gate false BAggregateReport p merged c t false false supplied = true) \/
+  (exists c, In (c, t) custom_agg /\
+             exists supplied, branch_gate true BAggregateReport p merged c t false false supplied = true).
+Proof.
+  intros Hwf Hsub merged.
+  pose proof (bundle_enabled_aggregate_list_exact user custom p bundled_agg custom_agg t Hwf Hsub) as E.
+  cbv zeta in E. fold merged in E. rewrite E. clear E.
+  pose proof (fun c => branch_gates_agree false BAggregateReport p merged c t) as Hb.
+  pose proof (fun c => branch_gates_agree true BAggregateReport p merged c t) as Hc.
+  cbn [branch_gate] in Hb, Hc.
+  split.
+  - intros [[c [Hin H]]|[c [Hin H]]].
+    + left. exists c. split; [assumption|]. exists true. cbn [branch_gate]. rewrite Hb. exact H.
+    + right. exists c. split; [assumption|]. exists true. cbn [branch_gate]. rewrite Hc. exact H.
+  - intros [[c [Hin [s H]]]|[c [Hin [s H]]]].
+    + left. exists c. split; [assumption|]. cbn [branch_gate] in H. rewrite <- Hb. exact H.
+    + right. exists c. split; [assumption|]. cbn [branch_gate] in H. rewrite <- Hc.
+      unfold custom_can_aggregate_report in *. destruct s; [exact H|discriminate].
+Qed.
